@@ -364,7 +364,34 @@ func (p *Prog) PkgFuncs(pkg string) ([]*ssa.Function, error) {
 		return nil, err
 	}
 	var out []*ssa.Function
+	cand := map[*ssa.Function]bool{}
 	for fn := range p.AllFunctions() {
+		cand[fn] = true
+	}
+	// methods of generic types are not runtime types and are not enumerated by
+	// AllFunctions: add every declared function and method of the package.
+	sc := tp.Scope()
+	for _, nm := range sc.Names() {
+		switch o := sc.Lookup(nm).(type) {
+		case *types.Func:
+			if f := p.SSA.FuncValue(o); f != nil {
+				for _, x := range WithAnon(f) {
+					cand[x] = true
+				}
+			}
+		case *types.TypeName:
+			if named, ok := o.Type().(*types.Named); ok {
+				for i := 0; i < named.NumMethods(); i++ {
+					if f := p.SSA.FuncValue(named.Method(i)); f != nil {
+						for _, x := range WithAnon(f) {
+							cand[x] = true
+						}
+					}
+				}
+			}
+		}
+	}
+	for fn := range cand {
 		if fn.Pkg == nil || fn.Pkg.Pkg != tp {
 			// anonymous functions and instantiations have Pkg of their parent/origin
 			if o := originPkg(fn); o != tp {
